@@ -18,6 +18,7 @@ from .builtins_model import (elementwise, as_array, norm, binop, compare, _cmp_s
                              call_builtin, is_bool_sym)
 
 CONSTANTS = {
+    "sys.float_info.max_exp": 1024,
     "numpy.pi": sp.pi, "numpy.inf": sp.oo, "numpy.nan": sp.nan, "numpy.newaxis": None,
     "math.pi": sp.pi, "math.inf": sp.oo, "numpy.e": sp.E,
 }
@@ -552,7 +553,7 @@ def _m_tolist(it, a, args, kwargs):
     return a.tolist() if isinstance(a, np.ndarray) else a
 
 
-@method("view", "astype", "squeeze_none")
+@method("view", "astype", "squeeze_none", "toarray")
 def _m_view(it, a, args, kwargs):
     return a
 
